@@ -2438,6 +2438,165 @@ fn sizes_cases(thorough: bool) -> Vec<SCase> {
 // sections
 // ------------------------------------------------------------------------------------------
 
+
+// ---------------------------------------------------------------------------------------------
+// scaling_words: the BFV message scaling primitives word by word, at the VALUE boundaries of their modular additions.
+// A fresh ciphertext word is (pseudo)random, so "ciphertext word + scaled message == q_j exactly" has probability 1/q_j and
+// no plaintext alphabet reaches it (seeded round 4, C02-G: a lazy `> q` instead of `>= q`). The primitives are public in
+// the hooked build (`verif_hooks::scaling_variant`), so the destination words are CHOSEN here: for every message value of
+// a boundary alphabet and every RNS component, the destination word is set to q_j - s, q_j - s -+ 1, 0, 1, q_j - 1, s,
+// s -+ 1 (s = the exactly scaled message mod q_j) and the result must be the canonical residue of d +- s.
+// ---------------------------------------------------------------------------------------------
+
+#[derive(Serialize, Deserialize, Clone, Debug)]
+pub struct SwCase {
+    pub spec: ParamSpec,
+    /// 0 = multiply_add_plain, 1 = multiply_sub_plain, 2 = add_plain, 3 = sub_plain
+    pub op: u8,
+}
+
+fn sw_messages(t: u64, q_mod_t: u64) -> Vec<u64> {
+    let mut m: Vec<u64> = vec![0, 1, 2, 3, t / 2, t / 2 + 1, (t / 2).saturating_sub(1), t - 1, t.saturating_sub(2), t / 3, 2 * (t / 3) + 1];
+    // message values whose product with (q mod t) crosses a multiple of 2^64 in its low word (carry into the high word)
+    if q_mod_t > 1 {
+        for k in 1..=6u128 {
+            let x = ((k << 64) + q_mod_t as u128 - 1) / q_mod_t as u128;
+            for d in [0i128, -1, 1] {
+                let v = x as i128 + d;
+                if v > 0 && (v as u128) < t as u128 {
+                    m.push(v as u64);
+                }
+            }
+        }
+    }
+    m.retain(|&x| x < t);
+    m.sort_unstable();
+    m.dedup();
+    m
+}
+
+fn check_scaling_words(c: &SwCase, seed: u64) -> CaseOut {
+    use heathcliff::verif_hooks::scaling_variant as sv;
+    he::env_real(seed, h64(&("scaling_words", &c.spec)));
+    let kit = match Kit::new(&c.spec) {
+        Ok(k) => k,
+        Err(e) => return CaseOut::skip(&format!("parameters rejected: {e}")),
+    };
+    let n = c.spec.n;
+    let t = c.spec.t;
+    let opn = ["multiply_add_plain", "multiply_sub_plain", "add_plain", "sub_plain"][c.op as usize];
+    let mut steps = 0u64;
+    let mut classes = 0u64;
+    for id in kit.levels() {
+        let cd = kit.ctx.get_context_data(&id).unwrap();
+        let mods = kit.moduli_at(&id);
+        let k = mods.len();
+        let q = BigU::product(&mods);
+        let q_mod_t = q.rem_u64(t);
+        let msgs = sw_messages(t, q_mod_t);
+        // s[j][i] = exactly scaled message i modulo q_j (multiply_*: round-half-up(Q m / t); add/sub: m mod q_j)
+        let scaled: Vec<Vec<u64>> = (0..k)
+            .map(|j| {
+                msgs.iter()
+                    .map(|&m| {
+                        if c.op < 2 {
+                            // floor((Q m + floor((t+1)/2)) / t)
+                            let num = q.mul_u64(m).add(&BigU::from_u64((t + 1) / 2));
+                            num.div(&BigU::from_u64(t)).rem_u64(mods[j])
+                        } else {
+                            m % mods[j]
+                        }
+                    })
+                    .collect()
+            })
+            .collect();
+        // destination word choices relative to s
+        for choice in 0..9usize {
+            for chunk in msgs.chunks(n) {
+                let base = msgs.iter().position(|x| *x == chunk[0]).unwrap();
+                let mut pt = Plaintext::new();
+                pt.resize(chunk.len());
+                pt.data_mut()[..chunk.len()].copy_from_slice(chunk);
+                let mut dest = vec![0u64; k * n];
+                let mut expect = vec![0u64; k * n];
+                for j in 0..k {
+                    let qj = mods[j];
+                    for (i, _) in chunk.iter().enumerate() {
+                        let s = scaled[j][base + i];
+                        let add = c.op == 0 || c.op == 2;
+                        // the word that makes the sum (difference) land exactly on the modulus (on zero), and its neighbours
+                        let pivot = if add { (qj - s) % qj } else { s };
+                        let d = match choice {
+                            0 => pivot,
+                            1 => (pivot + 1) % qj,
+                            2 => (pivot + qj - 1) % qj,
+                            3 => 0,
+                            4 => 1 % qj,
+                            5 => qj - 1,
+                            6 => s,
+                            7 => qj / 2,
+                            _ => (qj - 1) / 2 + 1,
+                        } % qj;
+                        dest[j * n + i] = d;
+                        expect[j * n + i] = if add { ((d as u128 + s as u128) % qj as u128) as u64 } else { ((d as u128 + qj as u128 - s as u128) % qj as u128) as u64 };
+                    }
+                    // untouched tail keeps a marker
+                    for i in chunk.len()..n {
+                        dest[j * n + i] = (j as u64 + 3) % qj;
+                        expect[j * n + i] = dest[j * n + i];
+                    }
+                }
+                let mut out = dest.clone();
+                let r = guard(|| match c.op {
+                    0 => sv::multiply_add_plain(&pt, &cd, &mut out),
+                    1 => sv::multiply_sub_plain(&pt, &cd, &mut out),
+                    2 => sv::add_plain(&pt, &cd, &mut out),
+                    _ => sv::sub_plain(&pt, &cd, &mut out),
+                });
+                if let Err(p) = r {
+                    return CaseOut::fail(format!("scaling_words:{opn}:panic:{}", panic_class(&p)), format!("{}: messages {:?}, destination choice {choice}: returns", c.spec.label(), chunk), p);
+                }
+                steps += (k * chunk.len()) as u64;
+                if let Some(x) = (0..k * n).find(|&x| out[x] != expect[x]) {
+                    let (j, i) = (x / n, x % n);
+                    let kind = if out[x] >= mods[j] { "non-canonical" } else { "wrong" };
+                    return CaseOut::fail(
+                        format!("scaling_words:{opn}:{kind}"),
+                        format!("{} level of {k} primes, component {j} (q_j = {}), coefficient {i}: destination word {} {} scaled message {} (m = {}) = {}", c.spec.label(), mods[j], dest[x], if c.op == 0 || c.op == 2 { "+" } else { "-" }, if i < chunk.len() { scaled[j][base + i] } else { 0 }, if i < chunk.len() { chunk[i] } else { 0 }, expect[x]),
+                        format!("{}", out[x]),
+                    );
+                }
+                classes += 1;
+            }
+        }
+    }
+    CaseOut::pass(true, h64(&(c.op, classes > 0)), steps)
+}
+
+fn scaling_words_cases(thorough: bool) -> Vec<SwCase> {
+    let big_t = primes_1_mod(16, 60, 1)[0];
+    let t40 = primes_1_mod(16, 40, 1)[0];
+    let mut specs = vec![
+        ParamSpec::new(Scheme::BFV, 8, he::chain(8, &[60, 49]), t40),
+        ParamSpec::new(Scheme::BFV, 8, he::chain(8, &[30, 30, 30]), 17),
+        ParamSpec::new(Scheme::BFV, 8, he::chain(8, &[60, 60, 60]), big_t),
+        ParamSpec::new(Scheme::BFV, 8, he::chain(8, &[25, 50, 50]), primes_1_mod(16, 30, 1)[0]),
+        ParamSpec::new(Scheme::BFV, 64, he::chain(64, &[54]), primes_1_mod(128, 36, 1)[0]),
+    ];
+    if thorough {
+        specs.push(ParamSpec::new(Scheme::BFV, 8, he::chain(8, &[40; 10]), t40));
+        specs.push(ParamSpec::new(Scheme::BFV, 1024, he::chain(1024, &[50, 50, 60]), 65537));
+        specs.push(ParamSpec::new(Scheme::BFV, 8, he::chain_low(8, &[40, 40, 40]), 1 << 20));
+    }
+    let mut v = vec![];
+    for spec in specs {
+        for op in 0..4u8 {
+            v.push(SwCase { spec: spec.clone(), op });
+        }
+    }
+    v
+}
+
 pub fn sections(cfg: &RunCfg) -> Vec<Box<dyn AnySection>> {
     let seed = cfg.seed;
     let thorough = cfg.thorough();
@@ -2611,5 +2770,12 @@ pub fn sections(cfg: &RunCfg) -> Vec<Box<dyn AnySection>> {
     // cheap sections first, so that an overloaded machine cuts the big sweeps (simplest-first inside) rather than whole sections
     let order = ["tinyprime", "uprng", "levels", "manyprimes", "sizes", "ckks", "tiny_all", "params"];
     v.sort_by_key(|s| order.iter().position(|o| *o == s.name()).unwrap_or(order.len()));
+    v.push(E1::new(
+        "scaling_words",
+        "scaling_variant::{multiply_add_plain, multiply_sub_plain, add_plain, sub_plain} called directly at every level of 5 (thorough 8) BFV parameter sets (40-bit / 60-bit / above-q0 / tiny t): message values {0,1,2,3,t/2-1..t/2+1,t-2,t-1,t/3,2t/3+1} + the values at which (q mod t)*m crosses a multiple of 2^64 (-1,0,+1), x destination word in {q_j-s, q_j-s+-1, 0, 1, q_j-1, s, q_j/2, (q_j-1)/2+1} (s = exactly scaled message mod q_j): every result word = canonical residue of d +- s",
+        scaling_words_cases(thorough).into_iter(),
+        move |c: &SwCase| check_scaling_words(c, seed),
+    ));
+
     v
 }
